@@ -54,6 +54,7 @@ type member struct {
 	closed chan struct{}
 	gate   *wgate
 	cerr   bool // Close reports an error (after closing)
+	badGrp string // "gid": empty transport group id; "count": wrong group total (the configuration must be refused)
 }
 
 // wgate makes the next Write of any member block inside the member until it is released.
@@ -147,6 +148,12 @@ func (m *member) TxBytesCounterValue() uint64 {
 func (m *member) AsUnreliable() (transport.UnreliableTransport, bool) { return &unrel{m}, true }
 
 func (m *member) NegotiationParams() transport.NegotiationParams {
+	if m.badGrp == "gid" {
+		return transport.NegotiationParams{TransportID: transport.TransportID(m.id), TransportGroupTotalCount: m.total, TransportGroupIndex: m.idx}
+	}
+	if m.badGrp == "count" {
+		return transport.NegotiationParams{TransportID: transport.TransportID(m.id), TransportGroupID: "g", TransportGroupTotalCount: m.total + 1, TransportGroupIndex: m.idx}
+	}
 	return transport.NegotiationParams{
 		TransportID:              transport.TransportID(m.id),
 		TransportGroupID:         "g",
@@ -267,7 +274,8 @@ func run(sc *h.Scenario) *h.Rec {
 	rr := strs(sc.P["rr"])
 	cerr := strs(sc.P["closeErr"])
 	sort.Strings(cerr)
-	rec.Log("Reset", "kind", sc.Kind, "p", h.Ev{"members": ids, "init": initID, "mode": mode, "wait": wait, "closeErr": cerr})
+	badCfg, _ := sc.P["badCfg"].(string) // "", "gid", "count" (the last member is the faulty one), "empty" (no members)
+	rec.Log("Reset", "kind", sc.Kind, "p", h.Ev{"members": ids, "init": initID, "mode": mode, "wait": wait, "closeErr": cerr, "badCfg": badCfg})
 	defer rec.Log("End")
 
 	if mode == "lastused-unattached" {
@@ -287,6 +295,9 @@ func run(sc *h.Scenario) *h.Rec {
 	for i, id := range ids {
 		m := newMember(id, i, len(ids))
 		m.gate = gate
+		if i == len(ids)-1 && (badCfg == "gid" || badCfg == "count") {
+			m.badGrp = badCfg
+		}
 		for _, x := range cerr {
 			if x == id {
 				m.cerr = true
